@@ -1,6 +1,6 @@
 (* C05/Proofs.v *)
-From Coq Require Import QArith Lqa Lia List Bool.
-From FV Require Import Base.Ser Base.Res Geom.QTools C05.Model.
+From Coq Require Import QArith Lqa Lia List Bool Sorted.
+From FV Require Import Base.Ser Base.Res Base.ListX Geom.QTools C05.Model.
 Import ListNotations.
 Open Scope Q_scope.
 
@@ -79,4 +79,261 @@ Proof.
       destruct (Qlt_le_dec x2 x) as [Lx|Gx]; [|rewrite (a1 Gx), (b1 Gx); reflexivity].
       destruct (Qlt_le_dec x x1) as [Lx2|Gx2]; [|rewrite (a2 Gx2), (b2 Gx2); reflexivity].
       rewrite (a3 Lx Lx2), (b3 Lx Lx2). reflexivity.
+Qed.
+
+(* ---------- whole contours ---------- *)
+Definition seg_at (deltas : list (option pt)) (coords : list pt) (i a b : nat) : pt :=
+  (iup1 (fst (getc coords i)) (fst (getc coords a)) (fst (getd deltas a)) (fst (getc coords b)) (fst (getd deltas b)),
+   iup1 (snd (getc coords i)) (snd (getc coords a)) (snd (getd deltas a)) (snd (getc coords b)) (snd (getd deltas b))).
+Definition explicit (deltas : list (option pt)) (i : nat) : Prop := nth i deltas None <> None.
+
+Lemma slice_length {A} (l : list A) i1 i2 : (i2 <= length l)%nat -> length (slice l i1 i2) = (i2 - i1)%nat.
+Proof. intros H. unfold slice. rewrite firstn_length, skipn_length. lia. Qed.
+Lemma slice_nth {A} (l : list A) i1 i2 k d : (k < i2 - i1)%nat -> nth k (slice l i1 i2) d = nth (i1 + k) l d.
+Proof. intros H. unfold slice. rewrite nth_firstn_lt by exact H. apply nth_skipn_early. Qed.
+
+Lemma map_nth_lt {A B} (f : A -> B) : forall (l : list A) k d d', (k < length l)%nat -> nth k (map f l) d' = f (nth k l d).
+Proof. induction l as [|x r IH]; intros k d d' H; [cbn in H; lia|]. destruct k; [reflexivity|]. cbn [map nth]. apply IH. cbn in H. lia. Qed.
+
+Lemma segment_nth deltas coords i1 i2 a b k : (i2 <= length coords)%nat -> (k < i2 - i1)%nat ->
+  nth k (iup_segment (slice coords i1 i2) (getc coords a) (getd deltas a) (getc coords b) (getd deltas b)) (0, 0)
+  = seg_at deltas coords (i1 + k) a b.
+Proof.
+  intros H Hk. unfold iup_segment.
+  rewrite (map_nth_lt _ _ k (0, 0) (0, 0)) by (rewrite slice_length by exact H; exact Hk).
+  rewrite slice_nth by exact Hk. reflexivity.
+Qed.
+Lemma segment_length deltas coords i1 i2 a b : (i2 <= length coords)%nat ->
+  length (iup_segment (slice coords i1 i2) (getc coords a) (getd deltas a) (getc coords b) (getd deltas b)) = (i2 - i1)%nat.
+Proof. intros H. unfold iup_segment. rewrite map_length. apply slice_length. exact H. Qed.
+
+Lemma last_cons {A} (r : list A) : forall x d, last (x :: r) d = last r x.
+Proof. induction r as [|y r IH]; intros x d; [reflexivity|]. change (last (x :: y :: r) d) with (last (y :: r) d). rewrite (IH y d), (IH y x). reflexivity. Qed.
+Lemma last_ge : forall r e, StronglySorted lt (e :: r) -> (e <= last r e)%nat.
+Proof.
+  induction r as [|x r IH]; intros e S; [cbn; lia|].
+  inversion S as [|? ? Sx Hx]; subst. inversion Hx as [|? ? Hex _]; subst.
+  rewrite last_cons. specialize (IH x Sx). lia.
+Qed.
+
+Lemma last_In : forall (r : list nat) x, In (last r x) (x :: r).
+Proof. induction r as [|y r IH]; intros x; [left; reflexivity|]. rewrite last_cons. right. apply IH. Qed.
+
+Definition consecutive (L : list nat) (e f : nat) : Prop := exists l1 l2, L = l1 ++ e :: f :: l2.
+
+(* the loop over consecutive explicit indices: every position up to the last explicit index gets its explicit delta, or the value
+   inferred from the two explicit indices around it *)
+Lemma middle_spec deltas coords : forall rest start t lst,
+  iup_middle deltas coords start rest = (t, lst) ->
+  StronglySorted lt (start :: rest) -> Forall (fun e => (e < length coords)%nat) rest ->
+  lst = last rest start /\ length t = (lst - start)%nat /\
+  forall i, (start < i)%nat -> (i <= lst)%nat ->
+    (In i rest -> nth (i - Datatypes.S start) t (0, 0) = getd deltas i) /\
+    (~ In i rest -> exists e f, consecutive (start :: rest) e f /\ (e < i)%nat /\ (i < f)%nat /\
+                                nth (i - Datatypes.S start) t (0, 0) = seg_at deltas coords i e f).
+Proof.
+  induction rest as [|e r IH]; intros start t lst H HS F; cbn [iup_middle] in H.
+  - apply pair_equal_spec in H. destruct H as [<- <-]. cbn [last length]. repeat split; try lia.
+  - destruct (iup_middle deltas coords e r) as [t' l'] eqn:M. apply pair_equal_spec in H. destruct H as [<- <-].
+    inversion HS as [|? ? Sr Hlt]; subst. inversion F as [|? ? He Fr]; subst.
+    assert (SE: (start < e)%nat) by (inversion Hlt; assumption).
+    destruct (IH e t' l' M Sr Fr) as [L1 [L2 L3]].
+    assert (LE: (e <= l')%nat) by (rewrite L1; apply last_ge; exact Sr).
+    set (seg := if Nat.ltb 1 (e - start) then iup_segment (slice coords (Datatypes.S start) e) (getc coords start) (getd deltas start) (getc coords e) (getd deltas e) else []).
+    assert (LS: length seg = (e - Datatypes.S start)%nat).
+    { unfold seg. destruct (Nat.ltb_spec 1 (e - start)); [rewrite segment_length by lia; lia|cbn; lia]. }
+    split; [|split].
+    + rewrite L1. symmetry. apply last_cons.
+    + rewrite app_length. cbn [length]. rewrite LS, L2. lia.
+    + intros i Hi Hl.
+      destruct (Nat.lt_trichotomy i e) as [Lt|[Eq|Gt]].
+      * (* inside the first segment *)
+        split.
+        -- intros [Hin|Hin]; [lia|]. exfalso. inversion Sr as [|? ? _ Her]; subst. rewrite Forall_forall in Her. specialize (Her i Hin). lia.
+        -- intros _. exists start, e. split; [exists [], r; reflexivity|]. split; [lia|split; [lia|]].
+           rewrite app_nth1 by (rewrite LS; lia). unfold seg.
+           destruct (Nat.ltb_spec 1 (e - start)); [|lia].
+           rewrite segment_nth by lia. f_equal. lia.
+      * subst i. split; [intros _|intros N; exfalso; apply N; left; reflexivity].
+        rewrite app_nth2 by (rewrite LS; lia). rewrite LS. replace (e - S start - (e - Datatypes.S start))%nat with 0%nat by lia. reflexivity.
+      * destruct (L3 i Gt Hl) as [A B]. split.
+        -- intros [Hin|Hin]; [lia|]. rewrite app_nth2 by (rewrite LS; lia). rewrite LS.
+           replace (i - S start - (e - Datatypes.S start))%nat with (Datatypes.S (i - Datatypes.S e)) by lia. cbn [nth]. apply A. exact Hin.
+        -- intros N. destruct B as [e' [f' [[l1 [l2 C]] [C1 [C2 C3]]]]]; [intro K; apply N; right; exact K|].
+           exists e', f'. split; [exists (start :: l1), l2; cbn [app]; rewrite <- C; reflexivity|]. split; [exact C1|split; [exact C2|]].
+           rewrite app_nth2 by (rewrite LS; lia). rewrite LS.
+           replace (i - S start - (e - Datatypes.S start))%nat with (Datatypes.S (i - Datatypes.S e)) by lia. cbn [nth]. exact C3.
+Qed.
+
+Lemma explicit_indices_In : forall l b i, In i (explicit_indices b l) <-> (b <= i < b + length l)%nat /\ nth (i - b) l None <> None.
+Proof.
+  induction l as [|o r IH]; intros b i; cbn [explicit_indices length].
+  - split; [contradiction|intros [H _]; lia].
+  - destruct o as [d|].
+    + cbn [In]. rewrite IH. split.
+      * intros [<-|[H1 H2]]; [split; [lia|rewrite Nat.sub_diag; discriminate]|].
+        split; [lia|]. replace (i - b)%nat with (S (i - S b)) by lia. exact H2.
+      * intros [H1 H2]. destruct (Nat.eq_dec b i) as [E|N]; [left; exact E|right]. split; [lia|].
+        replace (i - b)%nat with (S (i - S b)) in H2 by lia. exact H2.
+    + rewrite IH. split.
+      * intros [H1 H2]. split; [lia|]. replace (i - b)%nat with (S (i - S b)) by lia. exact H2.
+      * intros [H1 H2]. destruct (Nat.eq_dec b i) as [E|N]; [subst; rewrite Nat.sub_diag in H2; cbn in H2; contradiction|].
+        split; [lia|]. replace (i - b)%nat with (S (i - S b)) in H2 by lia. exact H2.
+Qed.
+Lemma explicit_indices_sorted : forall l b, StronglySorted lt (explicit_indices b l).
+Proof.
+  induction l as [|o r IH]; intros b; cbn [explicit_indices]; [constructor|].
+  destruct o; [|apply IH]. constructor; [apply IH|].
+  apply Forall_forall. intros x Hx. apply explicit_indices_In in Hx. lia.
+Qed.
+
+Lemma consecutive_gap L e f k : StronglySorted lt L -> consecutive L e f -> (e < k)%nat -> (k < f)%nat -> ~ In k L.
+Proof.
+  intros S [l1 [l2 ->]] H1 H2 Hin.
+  apply in_app_or in Hin. destruct Hin as [Hin|[Hin|[Hin|Hin]]]; try lia.
+  - (* before e: smaller than e *)
+    clear - S Hin H1. induction l1 as [|x r IH]; [contradiction|]. cbn [app] in S. inversion S as [|? ? Sr Hx]; subst.
+    destruct Hin as [->|Hin]; [|apply IH; assumption].
+    rewrite Forall_forall in Hx. specialize (Hx e ltac:(apply in_or_app; right; left; reflexivity)). lia.
+  - (* after f: larger than f *)
+    clear - S Hin H2. induction l1 as [|x r IH]; cbn [app] in S.
+    + inversion S as [|? ? Sr _]; subst. inversion Sr as [|? ? _ Hf]; subst. rewrite Forall_forall in Hf. specialize (Hf k Hin). lia.
+    + inversion S; subst. apply IH. assumption.
+Qed.
+
+Lemma explicit_indices_le : forall l b, (length (explicit_indices b l) <= length l)%nat.
+Proof. induction l as [|o r IH]; intros b; cbn [explicit_indices length]; [lia|]. destruct o; cbn [length]; specialize (IH (S b)); lia. Qed.
+Lemma explicit_indices_full : forall l b, length (explicit_indices b l) = length l -> forall i, (i < length l)%nat -> nth i l None <> None.
+Proof.
+  induction l as [|o r IH]; intros b H i Hi; [cbn in Hi; lia|]. cbn [explicit_indices length] in H.
+  destruct o as [d|].
+  - cbn [length] in H. destruct i; [discriminate|]. cbn [nth]. apply (IH (S b)); [lia|cbn in Hi; lia].
+  - pose proof (explicit_indices_le r (S b)). lia.
+Qed.
+
+Definition pt_eq (a b : pt) : Prop := fst a == fst b /\ snd a == snd b.
+
+(* WHOLE CONTOURS: an explicit delta is kept; a point without one gets the value inferred from the nearest explicit points before
+   and after it around the contour (no explicit point lies strictly between) *)
+Theorem iup_contour_spec deltas coords i : length coords = length deltas -> (i < length deltas)%nat ->
+  let R := iup_contour deltas coords in
+  length R = length deltas /\
+  (forall d, nth i deltas None = Some d -> nth i R (0, 0) = d) /\
+  (nth i deltas None = None -> (exists j, explicit deltas j) ->
+     exists p q, explicit deltas p /\ explicit deltas q /\ (p < length deltas)%nat /\ (q < length deltas)%nat /\
+       pt_eq (nth i R (0, 0)) (seg_at deltas coords i p q) /\
+       (* nothing explicit between p and i going forwards ... *)
+       ((p < i /\ forall k, p < k < i -> ~ explicit deltas k) \/
+        (i < p /\ (forall k, k < i -> ~ explicit deltas k) /\ (forall k, p < k < length deltas -> ~ explicit deltas k)))%nat /\
+       (* ... nor between i and q *)
+       ((i < q /\ forall k, i < k < q -> ~ explicit deltas k) \/
+        (q < i /\ (forall k, i < k < length deltas -> ~ explicit deltas k) /\ (forall k, k < q -> ~ explicit deltas k)))%nat).
+Proof.
+  intros HL Hi R. unfold R, iup_contour.
+  set (n := length deltas) in *.
+  pose proof (explicit_indices_sorted deltas 0) as SORT.
+  assert (EIN: forall k, In k (explicit_indices 0 deltas) <-> (k < n)%nat /\ explicit deltas k).
+  { intros k. rewrite explicit_indices_In. unfold explicit. rewrite Nat.sub_0_r. cbn [plus]. split; intros [A B]; split; try lia; exact B. }
+  destruct (explicit_indices 0 deltas) as [|start rest] eqn:EQ.
+  - (* no explicit delta at all *)
+    split; [apply repeat_length|]. split.
+    + intros d Hd. exfalso. apply (proj2 (EIN i)). split; [exact Hi|unfold explicit; rewrite Hd; discriminate].
+    + intros _ [j Hj]. exfalso. destruct (Nat.lt_ge_cases j n) as [Lt|Ge]; [apply (proj2 (EIN j)); split; assumption|].
+      apply Hj. apply nth_overflow. exact Ge.
+  - destruct (Nat.eqb_spec (length (start :: rest)) n) as [FULL|PART].
+    + (* every delta is explicit *)
+      split; [apply map_length|]. split.
+      * intros d Hd. rewrite (map_nth_lt _ deltas i None (0, 0)) by exact Hi. rewrite Hd. reflexivity.
+      * intros Hn _. exfalso. rewrite <- EQ in FULL. apply (explicit_indices_full deltas 0 FULL i Hi). exact Hn.
+    + assert (Sstart: (start < n)%nat /\ explicit deltas start) by (apply EIN; left; reflexivity).
+      assert (Frest: Forall (fun e => (e < length coords)%nat) rest).
+      { apply Forall_forall. intros e He. rewrite HL. apply (EIN e). right. exact He. }
+      destruct (iup_middle deltas coords start rest) as [mid lst] eqn:MID.
+      destruct (middle_spec deltas coords rest start mid lst MID SORT Frest) as [M1 [M2 M3]].
+      assert (LASTIDX: last (start :: rest) start = lst) by (rewrite last_cons; symmetry; exact M1).
+      rewrite LASTIDX.
+      assert (Llst: (start <= lst)%nat) by (rewrite M1; apply last_ge; exact SORT).
+      assert (LstE: In lst (start :: rest)) by (rewrite M1; apply last_In).
+      assert (Slst: (lst < n)%nat /\ explicit deltas lst) by (apply EIN; exact LstE).
+      assert (MAX: forall x, In x (start :: rest) -> (x <= lst)%nat).
+      { rewrite M1. clear - SORT. revert start SORT. induction rest as [|y r IH]; intros start SORT x Hx.
+        - destruct Hx as [<-|[]]. cbn. lia.
+        - rewrite last_cons. inversion SORT as [|? ? Sy Hy]; subst. destruct Hx as [<-|Hx].
+          + pose proof (last_ge r y Sy). inversion Hy; subst. lia.
+          + apply (IH y Sy x Hx). }
+      assert (RGT: forall x, In x rest -> (start < x)%nat).
+      { inversion SORT as [|? ? _ Hall]. rewrite Forall_forall in Hall. exact Hall. }
+      set (head := if Nat.eqb start 0 then [] else iup_segment (slice coords 0 start) (getc coords start) (getd deltas start) (getc coords lst) (getd deltas lst)).
+      set (tail := if Nat.eqb lst (n - 1) then [] else iup_segment (slice coords (S lst) n) (getc coords lst) (getd deltas lst) (getc coords start) (getd deltas start)).
+      assert (LH: length head = start).
+      { unfold head. destruct (Nat.eqb_spec start 0); [cbn; lia|rewrite segment_length by lia; lia]. }
+      assert (LT: length tail = (n - S lst)%nat).
+      { unfold tail. destruct (Nat.eqb_spec lst (n - 1)); [cbn; lia|rewrite segment_length by lia; lia]. }
+      split; [rewrite app_length; cbn [length]; rewrite app_length, LH, M2, LT; lia|].
+      assert (GETD: forall k d, nth k deltas None = Some d -> getd deltas k = d) by (intros k d Hk; unfold getd; rewrite Hk; reflexivity).
+      destruct (Nat.lt_trichotomy i start) as [Lt|[Eq|Gt]].
+      * (* before the first explicit point: between the last one (wrapping) and the first *)
+        rewrite app_nth1 by (rewrite LH; exact Lt).
+        assert (NS: start <> 0%nat) by lia.
+        assert (HV: nth i head (0, 0) = seg_at deltas coords i start lst).
+        { unfold head. destruct (Nat.eqb_spec start 0); [contradiction|]. rewrite segment_nth by lia. reflexivity. }
+        split.
+        -- intros d Hd. exfalso. assert (In i (start :: rest)) by (apply EIN; split; [exact Hi|unfold explicit; rewrite Hd; discriminate]).
+           destruct H as [H|H]; [lia|]. specialize (RGT i H). lia.
+        -- intros _ _. exists lst, start. repeat split; try tauto; try lia.
+           ++ rewrite HV. unfold seg_at. cbn [fst]. apply iup1_symmetric.
+           ++ rewrite HV. unfold seg_at. cbn [snd]. apply iup1_symmetric.
+           ++ right. split; [lia|]. split.
+              ** intros k Hk Ek. assert (In k (start :: rest)) by (apply EIN; split; [lia|exact Ek]).
+                 destruct H as [H|H]; [lia|]. specialize (RGT k H). lia.
+              ** intros k Hk Ek. assert (Hin: In k (start :: rest)) by (apply EIN; split; [lia|exact Ek]).
+                 specialize (MAX k Hin). lia.
+           ++ left. split; [lia|]. intros k Hk Ek. assert (In k (start :: rest)) by (apply EIN; split; [lia|exact Ek]).
+              destruct H as [H|H]; [lia|]. specialize (RGT k H). lia.
+      * (* the first explicit point itself *)
+        subst i. rewrite app_nth2 by (rewrite LH; lia). rewrite LH, Nat.sub_diag. cbn [nth]. split.
+        -- intros d Hd. apply GETD. exact Hd.
+        -- intros Hn _. exfalso. destruct Sstart as [_ Es]. apply Es. exact Hn.
+      * rewrite app_nth2 by (rewrite LH; lia). rewrite LH.
+        replace (i - start)%nat with (Datatypes.S (i - Datatypes.S start)) by lia. cbn [nth].
+        destruct (Nat.le_gt_cases i lst) as [Le|Gl].
+        -- (* between the first and the last explicit point *)
+           rewrite app_nth1 by (rewrite M2; lia).
+           destruct (M3 i Gt Le) as [A B]. split.
+           ++ intros d Hd. assert (Hin: In i rest).
+              { assert (K: In i (start :: rest)) by (apply EIN; split; [exact Hi|unfold explicit; rewrite Hd; discriminate]). destruct K as [K|K]; [lia|exact K]. }
+              rewrite (A Hin). apply GETD. exact Hd.
+           ++ intros Hn _.
+              assert (Nin: ~ In i rest).
+              { intro K. assert (K2: (i < n)%nat /\ explicit deltas i) by (apply EIN; right; exact K). destruct K2 as [_ K2]. apply K2. exact Hn. }
+              destruct (B Nin) as [e [f [C [C1 [C2 C3]]]]].
+              assert (Ce: In e (start :: rest) /\ In f (start :: rest)).
+              { destruct C as [l1 [l2 C]]. rewrite C. split; apply in_or_app; right; [left; reflexivity|right; left; reflexivity]. }
+              destruct Ce as [Ine Inf]. destruct (proj1 (EIN e) Ine) as [Ne Ee]. destruct (proj1 (EIN f) Inf) as [Nf Ef].
+              exists e, f. repeat split; try assumption.
+              ** rewrite C3. reflexivity.
+              ** rewrite C3. reflexivity.
+              ** left. split; [exact C1|]. intros k Hk Ek.
+                 apply (consecutive_gap (start :: rest) e f k SORT C); [lia|lia|apply EIN; split; [lia|exact Ek]].
+              ** left. split; [exact C2|]. intros k Hk Ek.
+                 apply (consecutive_gap (start :: rest) e f k SORT C); [lia|lia|apply EIN; split; [lia|exact Ek]].
+        -- (* after the last explicit point: between it and the first one (wrapping) *)
+           rewrite app_nth2 by (rewrite M2; lia). rewrite M2.
+           assert (NL: lst <> (n - 1)%nat) by lia.
+           assert (TV: nth (i - Datatypes.S start - (lst - start)) tail (0, 0) = seg_at deltas coords i lst start).
+           { unfold tail. destruct (Nat.eqb_spec lst (n - 1)); [contradiction|].
+             replace (i - Datatypes.S start - (lst - start))%nat with (i - Datatypes.S lst)%nat by lia.
+             rewrite segment_nth by lia. f_equal. lia. }
+           rewrite TV.
+           assert (NOEXP: forall k, (lst < k)%nat -> ~ explicit deltas k).
+           { intros k Hk Ek. destruct (Nat.lt_ge_cases k n) as [Kn|Kn]; [|apply Ek; apply nth_overflow; exact Kn].
+             assert (Hin: In k (start :: rest)) by (apply EIN; split; assumption). specialize (MAX k Hin). lia. }
+           split.
+           ++ intros d Hd. exfalso. apply (NOEXP i Gl). unfold explicit. rewrite Hd. discriminate.
+           ++ intros _ _. exists lst, start. repeat split; try tauto; try lia; try reflexivity.
+              ** left. split; [lia|]. intros k Hk. apply NOEXP. lia.
+              ** right. split; [lia|]. split.
+                 --- intros k Hk. apply NOEXP. lia.
+                 --- intros k Hk Ek. assert (Hin: In k (start :: rest)) by (apply EIN; split; [lia|exact Ek]).
+                     destruct Hin as [Hin|Hin]; [lia|]. specialize (RGT k Hin). lia.
 Qed.
